@@ -101,6 +101,8 @@ def relevant(pid, clause, prog):
         return True      # "as if the call had never been made": the history without the rejected call is in process 2
     if pid == 'C20' and prog.get('meta', {}).get('kind') == 'writehist' and clause.startswith('C14.'):
         return True      # model histories with a refused assignment: the fresh process never makes the refused call
+    if pid == 'C18' and prog.get('meta', {}).get('kind') == 'foreign' and clause in ('C07.RefResolves', 'C07.RefIsTarget'):
+        return True      # "every ... reference ... appears in exactly the logical file it was added to"
     if pid == 'C12' and prog.get('meta', {}).get('fringe') and clause[:3] in ('C01', 'C02', 'C03', 'C04', 'C05', 'C07', 'C08', 'C09', 'C16'):
         return True
     return False
